@@ -1016,3 +1016,89 @@ func runSiblingRef(c *core.Ctx) {
 		c.Pass(key, al.Pos(), "fills %v%s", got, map[bool]string{true: " with config fallback", false: ""}[kind == "img"])
 	}
 }
+
+func init() {
+	register(&Rule{ID: "TS-REFDESC", Floor: 2,
+		Doc: "the function that derives a referrer's descriptor from the manifest bytes starts from the descriptor it was given; on every path to a successful return the fields the manifest alone determines — Size (= length of the bytes) and Annotations (= the manifest's own annotations, also when it has none) — have been overwritten from the parsed manifest, so a wrong descriptor (stale fallback entry) can never validate against itself",
+		Run: func(c *core.Ctx) {
+			r := requireRoles(c)
+			if r == nil {
+				return
+			}
+			pk := c.P.Pkg("types")
+			if pk == nil {
+				c.Unresolved("types", "package types not found")
+				return
+			}
+			var fn *ssa.Function
+			for _, f := range c.P.Funcs("types") {
+				if f.Name() == "ManifestReferrerDescriptor" && f.Parent() == nil {
+					fn = f
+				}
+			}
+			if fn == nil || fn.Signature.Results().Len() != 3 {
+				c.Unresolved("ManifestReferrerDescriptor", "function not found")
+				return
+			}
+			// the parsed manifest: the local whose address is given to json.Unmarshal
+			var parsed ssa.Value
+			an.Calls(fn, func(call ssa.CallInstruction) {
+				if an.IsFunc(call, "encoding/json", "Unmarshal") && len(call.Common().Args) == 2 {
+					if mi, ok := call.Common().Args[1].(*ssa.MakeInterface); ok {
+						parsed = mi.X
+					}
+				}
+			})
+			var rawParam *ssa.Parameter
+			for _, p := range fn.Params {
+				if sl, ok := p.Type().Underlying().(*types.Slice); ok {
+					if b, ok := sl.Elem().Underlying().(*types.Basic); ok && b.Kind() == types.Byte {
+						rawParam = p
+					}
+				}
+			}
+			if parsed == nil || rawParam == nil {
+				c.Unresolved("ManifestReferrerDescriptor:parse", "the parsed manifest or the raw bytes parameter was not found")
+				return
+			}
+			type st struct{ size, annot bool }
+			badSize, badAnnot := token.NoPos, token.NoPos
+			an.Paths(an.PathSpec[st]{Fn: fn, Init: st{},
+				Instr: func(s st, in ssa.Instruction) []st {
+					switch x := in.(type) {
+					case *ssa.Store:
+						fa, ok := x.Addr.(*ssa.FieldAddr)
+						if !ok {
+							break
+						}
+						n := an.NamedOf(an.Deref(fa.X.Type()))
+						if n == nil || n.Obj().Name() != "Descriptor" {
+							break
+						}
+						switch an.Deref(fa.X.Type()).Underlying().(*types.Struct).Field(fa.Field).Name() {
+						case "Size":
+							if l := lenOf(x.Val); l != nil && an.Origin(l) == ssa.Value(rawParam) {
+								s.size = true
+							}
+						case "Annotations":
+							root, p := accessPath(an.Strip(x.Val))
+							if root == parsed && len(p) == 1 && p[0] == "Annotations" {
+								s.annot = true
+							}
+						}
+					case *ssa.Return:
+						if retErrNil(x) {
+							if !s.size && badSize == token.NoPos {
+								badSize = x.Pos()
+							}
+							if !s.annot && badAnnot == token.NoPos {
+								badAnnot = x.Pos()
+							}
+						}
+					}
+					return []st{s}
+				}})
+			c.Check(badSize == token.NoPos, "derived:Size", fn.Pos(), "every successful return of %s has set Size = len(raw): %v", c.P.FuncName(fn), badSize == token.NoPos)
+			c.Check(badAnnot == token.NoPos, "derived:Annotations", fn.Pos(), "every successful return of %s has set Annotations from the parsed manifest unconditionally: %v — otherwise annotations of the descriptor passed in (a stale fallback entry) survive, the entry validates against itself and the referrers API serves annotations the manifest never declared", c.P.FuncName(fn), badAnnot == token.NoPos)
+		}})
+}
